@@ -100,6 +100,8 @@ def literals_of(body, env):
             out.add(int(m.group(1).replace("_", ""), 0))
         except ValueError:
             pass
+    for ty, suf in re.findall(r"\b([ui])(8|16|32|64)::MAX\b", body):
+        out.add((1 << (int(suf) - (1 if ty == "i" else 0))) - 1)
     for name in set(re.findall(r"\b([A-Z][A-Z0-9_]{2,})\b", body)):
         if name in env:
             out.add(env[name])
